@@ -26,6 +26,9 @@ type CBParams struct {
 	Initial int    `json:"initial"`
 	Event   string `json:"event"` // none join die leave
 	Perms   int    `json:"perms"` // rounds whose monitor order is enumerated
+	// Timing: 0 = default heart-beat interval / tolerance (10s + 60s); 1 = 1s + 1500ms (a fractional number of
+	// seconds); 2 = 500ms + 400ms (less than one second in total)
+	Timing int `json:"timing"`
 }
 
 type cbInst struct {
@@ -85,9 +88,15 @@ func init() {
 					out = append(out, Instance{Scenario: "c10_cb", Params: mustJSON(CBParams{Initial: n, Event: ev, Perms: q}), Bound: 0, Shards: 8})
 				}
 			}
+			for tm := 1; tm <= 2; tm++ {
+				for _, ev := range []string{"join", "die"} {
+					out = append(out, Instance{Scenario: "c10_cb", Params: mustJSON(CBParams{Initial: 2, Event: ev, Perms: 1, Timing: tm}), Bound: 0, Shards: 2, Note: "heart-beat interval + tolerance that is not a whole number of seconds / below one second"})
+				}
+			}
 			out = append(out, Instance{Scenario: "c10_cb", Params: mustJSON(CBParams{Initial: 2, Event: "join-race", Perms: 1}), Bound: 0, Shards: 4, Note: "a monitor round of an existing member injected at every scheduling point of the newcomer's registration"})
 			out = append(out, Instance{Scenario: "c10_sd", Params: mustJSON(struct{}{}), Bound: 0, Shards: 4})
 			out = append(out, Instance{Scenario: "c10_simple", Params: mustJSON(struct{}{}), Bound: 0})
+			out = append(out, Instance{Scenario: "c10_register", Params: mustJSON(struct{}{}), Bound: 0, Note: "real RPC client / handler code over an in-memory transport: registration, death, restart under the same name before / after the leader's next round"})
 			out = append(out, Instance{Scenario: "c10_first", Params: mustJSON(FirstParams{Inject: true}), Bound: 0, Note: "first numbering injected at every scheduling point of the first GetInfo()"})
 			out = append(out, Instance{Scenario: "c10_first", Params: mustJSON(FirstParams{}), Bound: 3, Note: "first numbering vs first GetInfo(), every schedule with <=3 deviations"})
 			return out
@@ -107,6 +116,12 @@ func cbMain(p CBParams) {
 	var insts []*cbInst
 	join := func() *cbInst {
 		cfg := o.config()
+		switch p.Timing {
+		case 1:
+			cfg.Dcp.Group.Membership.Config = map[string]string{"heartbeatInterval": "1s", "heartbeatToleranceDuration": "1500ms"}
+		case 2:
+			cfg.Dcp.Group.Membership.Config = map[string]string{"heartbeatInterval": "500ms", "heartbeatToleranceDuration": "400ms"}
+		}
 		cl := couchbase.NewClient(cfg)
 		if err := cl.Connect(); err != nil {
 			panic(err)
